@@ -192,93 +192,229 @@ def check_cipher_tables(rep, prog, rid):
 
 def check_pubkey_derivation(rep, prog, rid):
     """PrivKeyV4.pubkey(): the public packet is built from public classes and from copies of the private packet's own
-    public terms (created, algorithm, public fields, curve id, KDF parameters) - nothing else, nothing recomputed."""
+    public terms (created, algorithm, public fields, curve id, KDF parameters) - nothing else, nothing recomputed.
+
+    Decided on interpreter values only: the packet is whatever object the method returns, its fields are the attribute stores /
+    setattr calls whose target is rooted at that object, iterations are the bound variables of the path (State.bound) - local
+    names, temporaries for `self.keymaterial` / `pk.keymaterial`, if-vs-conditional expression, merged or split algorithm tests
+    and statement order do not matter."""
     from .sigdata import enum_const
+    from .interp import bound_over
     fi = prog.method('pgpy.packet.packets', 'PrivKeyV4', 'pubkey')
     rep.saw(fn=fi)
-    # loops: only over the public field names of the private material
-    for n in ast.walk(fi.node):
-        if isinstance(n, ast.For):
-            it = ast.unparse(n.iter)
-            rep.check(it == 'self.keymaterial.__pubfields__', rid, 'PrivKeyV4.pubkey', 'loop over %s' % it,
-                      'only the public field names may be copied into the public packet', where='%s:%d' % (fi.module.relpath, n.lineno),
-                      expected='for pm in self.keymaterial.__pubfields__', found=it)
+    where = fi.where
+    SRC = 'self.keymaterial'
+    PUBF = SRC + '.__pubfields__'
     secret_words = ('__privfields__', '__mpis__', 's2k', 'encbytes', 'chksum', '__privkey__')
-    for alg, extra in (('RSAEncryptOrSign', {}), ('DSA', {}), ('ECDSA', {'oid': 'self.keymaterial.oid'}), ('EdDSA', {'oid': 'self.keymaterial.oid'}),
-                       ('ECDH', {'oid': 'self.keymaterial.oid', 'kdf': ('copy.copy(self.keymaterial.kdf)', 'self.keymaterial.kdf')})):
+    ctors = ('PubKeyV4', 'PubSubKeyV4', 'PrivKeyV4', 'PrivSubKeyV4', 'PubKey', 'PrivKey')
+
+    def iterations(s, scen):
+        # every summarised loop / comprehension of the path ranges over the public field names of the private material
+        for var, coll in sorted(s.bound.items()):
+            rep.check(coll == PUBF, rid, 'PrivKeyV4.pubkey', 'loop over %s' % coll,
+                      'only the public field names may be copied into the public packet', where=where,
+                      expected='iteration over %s' % PUBF, found=coll, scenario=scen)
+
+    # all branches at once (algorithm unknown): no iteration anywhere in the method ranges over anything else
+    for s in Interp(prog, Scenario(inline=noinline, join_unknown=True)).run(fi):
+        iterations(s, 'any algorithm')
+    for alg, extra in (('RSAEncryptOrSign', {}), ('DSA', {}), ('ECDSA', {'oid': (SRC + '.oid',)}), ('EdDSA', {'oid': (SRC + '.oid',)}),
+                       ('ECDH', {'oid': (SRC + '.oid',), 'kdf': ('copy.copy(%s.kdf)' % SRC, SRC + '.kdf')})):
         sc = Scenario(inline=noinline, bind={'self.pkalg': enum_const(prog, 'PubKeyAlgorithm', alg)})
         outs = Interp(prog, sc).run(fi)
+        if not any(not s.raised for s in outs):
+            raise AnalysisError('PrivKeyV4.pubkey never returns for %s' % alg)
         for s in outs:
-            ctor = [c[0] for c in s.calls if c[0] in ('PubKeyV4', 'PubSubKeyV4', 'PrivKeyV4', 'PrivSubKeyV4', 'PubKey', 'PrivKey')]
+            if s.raised:
+                continue
+            ctor = [c[0] for c in s.calls if c[0] in ctors]
             rep.check(bool(ctor) and set(ctor) <= {'PubKeyV4', 'PubSubKeyV4'}, rid, 'PrivKeyV4.pubkey', '%s: constructs %s' % (alg, sorted(set(ctor))),
-                      'the public twin must be a public-key packet class', where=fi.where, scenario=alg)
-            pk = render(s.ret)
+                      'the public twin must be a public-key packet class', where=where, scenario=alg)
+            iterations(s, alg)
+            pk = render(s.ret)                       # the returned object, whatever the local is called
+            fieldvars = bound_over(s, PUBF)          # canonical names of the variables ranging over the public field names
             got = {}
             for p, v, l, _ in s.stores:
                 if p.startswith(pk + '.'):
-                    got[p[len(pk) + 1:]] = v
+                    got.setdefault(p[len(pk) + 1:], []).append(v)
+            copied = []
             for c in s.calls:
                 if c[0] == 'setattr' and len(c[1]) == 3 and c[1][0] == pk + '.keymaterial':
-                    got['keymaterial.<%s>' % c[1][1]] = c[1][2]
-            want = {'created': ('self.created',), 'pkalg': ('PubKeyAlgorithm.%s' % alg, 'self.pkalg'),
-                    'keymaterial.<$1>': ('copy.copy(getattr(self.keymaterial, $1))', 'getattr(self.keymaterial, $1)')}      # $1: the loop's field name
+                    name, val = c[1][1], c[1][2]
+                    okv = name in fieldvars and val in ('copy.copy(getattr(%s, %s))' % (SRC, name), 'getattr(%s, %s)' % (SRC, name))
+                    copied.append(okv)
+                    rep.check(okv, rid, 'PrivKeyV4.pubkey', '%s: public field <%s> = %s' % (alg, name, val),
+                              'each public field of the twin must be a copy of the private packet\'s own field of the same name',
+                              where=where, expected='setattr(pk.keymaterial, f, copy.copy(getattr(%s, f))) for f in %s' % (SRC, PUBF),
+                              found='%s = %s' % (name, val), scenario=alg)
+                    rep.check(not any(w in val or w in name for w in secret_words), rid, 'PrivKeyV4.pubkey', '%s: secret in field copy %s = %s' % (alg, name, val),
+                              'nothing but the public terms may be put into the public packet', where=where, scenario=alg)
+            rep.check(any(copied), rid, 'PrivKeyV4.pubkey', '%s: public fields copied: %d site(s)' % (alg, len(copied)),
+                      'the public fields of the key material must be copied into the twin', where=where,
+                      expected='setattr(pk.keymaterial, f, copy.copy(getattr(%s, f))) for f in %s' % (SRC, PUBF), found=None if not copied else copied, scenario=alg)
+            want = {'created': ('self.created',), 'pkalg': ('PubKeyAlgorithm.%s' % alg, 'self.pkalg')}
             for k, v in extra.items():
-                want['keymaterial.%s' % k] = v if isinstance(v, tuple) else (v,)
+                want['keymaterial.%s' % k] = v
             for k, vals in want.items():
-                rep.check(got.get(k) in vals, rid, 'PrivKeyV4.pubkey', '%s: public %s = %s' % (alg, k, got.get(k)),
+                g = got.get(k) or [None]
+                rep.check(all(x in vals for x in g), rid, 'PrivKeyV4.pubkey', '%s: public %s = %s' % (alg, k, g[0] if len(g) == 1 else g),
                           'the public twin\'s %s must be a copy of the private packet\'s own value (same fingerprint, same behaviour)' % k,
-                          where=fi.where, expected=vals[0], found=got.get(k), scenario=alg)
-            for k, v in got.items():
-                rep.check(k in want and not any(w in v for w in secret_words), rid, 'PrivKeyV4.pubkey', '%s: extra/secret store %s = %s' % (alg, k, v),
-                          'nothing but the public terms may be put into the public packet', where=fi.where, scenario=alg)
+                          where=where, expected=vals[0], found=g[0] if len(g) == 1 else g, scenario=alg)
+            for k, vs in got.items():
+                for v in vs:
+                    rep.check(k in want and not any(w in v for w in secret_words), rid, 'PrivKeyV4.pubkey', '%s: extra/secret store %s = %s' % (alg, k, v),
+                              'nothing but the public terms may be put into the public packet', where=where, scenario=alg)
             rep.check(any(c[0] == pk + '.update_hlen' for c in s.calls), rid, 'PrivKeyV4.pubkey', '%s: update_hlen' % alg,
-                      'the public packet length must be recomputed', where=fi.where, scenario=alg)
+                      'the public packet length must be recomputed', where=where, scenario=alg)
+
+
+def _bind_call(fi, call):
+    """{parameter name: argument text} of a recorded call (func_text, [args], {kw}, ...) to the function `fi`: positional and
+    keyword spellings of the same call give the same binding."""
+    params = list(fi.params)
+    if fi.cls is not None and not any(dotted(d) == 'staticmethod' for d in fi.node.decorator_list):
+        params = params[1:]
+    b = dict(zip(params, call[1]))
+    b.update(call[2])
+    if '**' in b or '*' in b or any(a.startswith('*') for a in call[1]):
+        # f(*seq) / f(**mapping): which slot a value reaches is not modelled - never guess
+        raise AnalysisError('call of %s at line %s passes */** arguments: argument binding not modelled' % (fi.qualname, call[3]))
+    return b
+
+
+def hex_decoded(text):
+    """X if `text` denotes the octets whose hexadecimal spelling is the str X (the idioms are equivalent on hex digits), else None."""
+    m = re.match(r'^(?:binascii\.)?(?:unhexlify|a2b_hex)\((.+)\)$', text or '')
+    if m:
+        inner = m.group(1)
+        m2 = re.match(r"^(.+)\.encode\((?:'(?:latin-1|latin1|iso-8859-1|ascii|us-ascii|utf-8|utf8)')?\)$", inner)
+        return m2.group(1) if m2 else inner
+    m = re.match(r'^(?:bytes|bytearray)\.fromhex\((.+)\)$', text or '')
+    return m.group(1) if m else None
 
 
 def check_ids_rooted_at_self(rep, prog, rid):
-    """Issuer key id, issuer fingerprint, recipient key id and the key material used all come from the method's own `self`."""
+    """Issuer key id, issuer fingerprint, recipient key id and the key material used all come from the method's own `self`.
+
+    Decided on interpreter call / store events (values, not source text): what matters is the value that reaches the issuer /
+    `_issuer_fpr` / encrypter / algorithm slot on every path that writes it, and the receiver of the signing / session-key call.
+    Temporaries, keyword-vs-positional arguments, merged or nested conditions and statement order do not matter."""
     K = 'pgpy.pgp'
-    # issuer key id at every PGPSignature.new call
-    for meth in ('sign', 'certify', 'revoke', 'revoker', 'bind'):
-        f = prog.method(K, 'PGPKey', meth)
-        for n in ast.walk(f.node):
-            if isinstance(n, ast.Call) and dotted(n.func) == 'PGPSignature.new':
-                a = [ast.unparse(x) for x in n.args]
-                rep.check(len(a) >= 4 and a[1] == 'self.key_algorithm' and a[3] == 'self.fingerprint.keyid', rid, 'PGPKey.%s' % meth,
-                          'PGPSignature.new(%s)' % ', '.join(a), 'the issuer id and algorithm written must be those of the key that signs (self)',
-                          where='%s:%d' % (f.module.relpath, n.lineno), expected='(.., self.key_algorithm, .., self.fingerprint.keyid)', found=a)
+    KEYID, FPR, ALG, MAT = 'self.fingerprint.keyid', 'self.fingerprint', 'self.key_algorithm', 'self._key'
     nf = prog.method(K, 'PGPSignature', 'new')
-    src = ast.unparse(nf.node)
-    rep.check("addnew('Issuer', _issuer=signer)" in src and 'sigpkt.pubalg = pkalg' in src and 'sigpkt.sigtype = sigtype' in src, rid,
-              'PGPSignature.new', 'issuer/pubalg/sigtype stored', 'the new signature records the given issuer id, algorithm and type', where=nf.where)
-    # _sign: issuer fingerprint and key material
+    np_ = [p for p in nf.params[1:]]          # (sigtype, pkalg, halg, signer, created) whatever they are called
+    if len(np_) < 4:
+        raise AnalysisError('PGPSignature.new: signature changed (%s)' % nf.params)
+    P_TYPE, P_ALG, P_SIGNER = np_[0], np_[1], np_[3]
+    kcls = prog.cls(K, 'PGPKey')
+    addnew = prog.cls('pgpy.packet.fields', 'SubPackets').find_method('addnew')
+    if addnew is None:
+        raise AnalysisError('SubPackets.addnew vanished')
+    a_params = addnew.params[1:]
+
+    def is_new_site(n):
+        return isinstance(n, ast.Call) and (dotted(n.func) or '').split('.')[-2:] == ['PGPSignature', 'new']
+
+    # ---- issuer key id and algorithm at every place a new signature is started
+    meths = ['sign', 'certify', 'revoke', 'revoker', 'bind']
+    meths += sorted(m for m, f in kcls.methods.items() if m not in meths and any(is_new_site(n) for n in ast.walk(f.node)))
+    for meth in meths:
+        f = prog.method(K, 'PGPKey', meth)
+        rep.saw(fn=f)
+        outs = Interp(prog, Scenario(inline=noinline, join_unknown=True)).run(f)
+        seen = {}
+        for s in outs:
+            for c in s.calls:
+                if c[0] == 'PGPSignature.new':
+                    b = _bind_call(nf, c)
+                    seen.setdefault((c[3], b.get(P_ALG), b.get(P_SIGNER)), c)
+        reached = set(id(c[4]) for c in seen.values())
+        for n in ast.walk(f.node):
+            if is_new_site(n) and id(n) not in reached:
+                raise AnalysisError('PGPKey.%s: PGPSignature.new at line %d is not reached by the interpreter' % (meth, n.lineno))
+        if not seen and meth in ('sign', 'certify', 'revoke', 'revoker', 'bind'):
+            raise AnalysisError('PGPKey.%s no longer starts a signature with PGPSignature.new' % meth)
+        for (line, alg, signer), c in sorted(seen.items(), key=lambda kv: kv[0][0]):
+            rep.check(alg == ALG and signer == KEYID, rid, 'PGPKey.%s' % meth,
+                      'PGPSignature.new(%s=%s, %s=%s)' % (P_ALG, alg, P_SIGNER, signer), 'the issuer id and algorithm written must be those of the key that signs (self)',
+                      where='%s:%d' % (f.module.relpath, line), expected='(.., %s, .., %s)' % (ALG, KEYID), found=[alg, signer])
+    # ---- PGPSignature.new records what it is given
+    rep.saw(fn=nf)
+    n_ok = 0
+    for s in Interp(prog, Scenario(inline=noinline)).run(nf):
+        if s.raised:
+            continue
+        n_ok += 1
+        wrapper = render(s.ret)
+        pkts = [v for p, v, l, _ in s.stores if p == wrapper + '._signature']
+        pkt = pkts[-1] if pkts else None
+        st = {}
+        for p, v, l, _ in s.stores:
+            st.setdefault(p, []).append(v)
+        issuer = [_bind_call(addnew, c) for c in s.calls if pkt is not None and c[0] == pkt + '.subpackets.addnew' and
+                  (c[1][0] if c[1] else c[2].get(a_params[0])) == "'Issuer'"]
+        ok = pkt is not None and st.get(pkt + '.pubalg') == [P_ALG] and st.get(pkt + '.sigtype') == [P_TYPE] and \
+            len(issuer) == 1 and issuer[0].get('_issuer') == P_SIGNER
+        rep.check(ok, rid, 'PGPSignature.new', 'issuer/pubalg/sigtype stored', 'the new signature records the given issuer id, algorithm and type',
+                  where=nf.where, expected='packet.pubalg = %s, packet.sigtype = %s, Issuer subpacket _issuer = %s' % (P_ALG, P_TYPE, P_SIGNER),
+                  found='packet %s: pubalg %s, sigtype %s, Issuer %s' % (pkt, st.get('%s.pubalg' % pkt), st.get('%s.sigtype' % pkt),
+                                                                          issuer))
+    if not n_ok:
+        raise AnalysisError('PGPSignature.new never returns')
+    # ---- _sign: issuer fingerprint and key material
     f = prog.method(K, 'PGPKey', '_sign')
-    fpr = [n for n in ast.walk(f.node) if isinstance(n, ast.Call) and isinstance(n.func, ast.Attribute) and n.func.attr == 'addnew' and
-           n.args and isinstance(n.args[0], ast.Constant) and n.args[0].value == 'IssuerFingerprint']
-    rep.check(len(fpr) == 1, rid, 'PGPKey._sign', 'IssuerFingerprint sites %d' % len(fpr), 'expected one issuer-fingerprint subpacket', where=f.where)
-    for n in fpr:
-        kw = {k.arg: ast.unparse(k.value) for k in n.keywords}
-        rep.check(kw.get('_issuer_fpr') == 'self.fingerprint' and kw.get('_version') == '4' and kw.get('hashed') == 'True', rid, 'PGPKey._sign',
-                  'IssuerFingerprint(%s)' % kw, 'the issuer fingerprint written must be the fingerprint of the key that signs (self)',
-                  where='%s:%d' % (f.module.relpath, n.lineno), expected='_issuer_fpr=self.fingerprint', found=kw)
-    signs = [n for n in ast.walk(f.node) if isinstance(n, ast.Call) and ast.unparse(n.func).endswith('_key.sign')]
-    rep.check([ast.unparse(n.func) for n in signs] == ['self._key.sign'], rid, 'PGPKey._sign', 'signing call %s' % [ast.unparse(n.func) for n in signs],
-              'the signature must be made with the key material of self', where=f.where)
-    # encrypt: recipient id and key material
+    rep.saw(fn=f)
+    fpr, signs, sinks = {}, {}, {}
+    returning = 0
+    for s in Interp(prog, Scenario(inline=noinline, join_unknown=True)).run(f):
+        returning += 0 if s.raised else 1
+        for c in s.calls:
+            last = c[0].split('.')[-1]
+            if last == 'addnew':
+                if (c[1][0] if c[1] else c[2].get(a_params[0])) == "'IssuerFingerprint'":
+                    b = _bind_call(addnew, c)
+                    fpr.setdefault((c[3], b.get('_issuer_fpr'), b.get('_version'), b.get(a_params[1]) if len(a_params) > 1 else None), c)
+            elif last == 'sign' and c[0].endswith('._key.sign'):
+                signs.setdefault((c[3], c[0]), c)
+            elif last == 'from_signer':
+                sinks.setdefault((c[3], (c[1] + [None])[0]), c)
+    if not returning:
+        raise AnalysisError('PGPKey._sign never returns')
+    rep.check(len(fpr) >= 1, rid, 'PGPKey._sign', 'IssuerFingerprint sites %d' % len(fpr), 'expected an issuer-fingerprint subpacket', where=f.where)
+    for (line, val, ver, hashed), c in sorted(fpr.items(), key=lambda kv: kv[0][0]):
+        rep.check(val == FPR and ver == '4' and hashed == 'True', rid, 'PGPKey._sign',
+                  'IssuerFingerprint(_issuer_fpr=%s, _version=%s, hashed=%s)' % (val, ver, hashed),
+                  'the issuer fingerprint written must be the fingerprint of the key that signs (self)',
+                  where='%s:%d' % (f.module.relpath, line), expected='_issuer_fpr=%s' % FPR, found={'_issuer_fpr': val, '_version': ver, 'hashed': hashed})
+    recv = sorted(set(k[1] for k in signs))
+    rep.check(recv == [MAT + '.sign'], rid, 'PGPKey._sign', 'signing call %s' % recv,
+              'the signature must be made with the key material of self', where=f.where, expected=MAT + '.sign', found=recv)
+    made = sorted(set(str(k[1]) for k in sinks))
+    rep.check(bool(made) and all(m.startswith(MAT + '.sign(') for m in made), rid, 'PGPKey._sign', 'signature octets stored: %s' % [m[:40] for m in made],
+              'the signature stored in the packet must be the one made with the key material of self', where=f.where,
+              expected='from_signer(%s.sign(..))' % MAT, found=made)
+    # ---- encrypt: recipient id and key material
     f = prog.method(K, 'PGPKey', 'encrypt')
+    rep.saw(fn=f)
     outs = Interp(prog, Scenario(inline=noinline, join_unknown=True, bind={'message.is_encrypted': Const(False)})).run(f)
+    n_ok = 0
     for s in outs:
         if s.raised:
             continue
-        enc = [v for p, v, l, _ in s.stores if p == 'pkesk.encrypter']
-        alg = [v for p, v, l, _ in s.stores if p == 'pkesk.pkalg']
-        esk = [c for c in s.calls if c[0] == 'pkesk.encrypt_sk']
-        rep.check(enc == ["binascii.unhexlify(self.fingerprint.keyid.encode('latin-1'))"] and alg == ['self.key_algorithm'], rid, 'PGPKey.encrypt',
+        n_ok += 1
+        # the session-key packet is the object whose recipient id is written (whatever the local is called)
+        pk = sorted(set(p[:-len('.encrypter')] for p, v, l, _ in s.stores if p.endswith('.encrypter')))
+        enc = [v for p, v, l, _ in s.stores if p.endswith('.encrypter')]
+        alg = [v for p, v, l, _ in s.stores if len(pk) == 1 and p == pk[0] + '.pkalg']
+        esk = [c for c in s.calls if c[0].split('.')[-1] == 'encrypt_sk']
+        rep.check(len(pk) == 1 and bool(enc) and all(hex_decoded(v) == KEYID for v in enc) and alg == [ALG], rid, 'PGPKey.encrypt',
                   'recipient id %s alg %s' % (enc, alg), 'the recipient key id and algorithm written must be those of the key that encrypts (self)',
-                  where=f.where, expected='unhexlify(self.fingerprint.keyid), self.key_algorithm', found='%s / %s' % (enc, alg))
-        rep.check(len(esk) == 1 and esk[0][1][:1] == ['self._key'], rid, 'PGPKey.encrypt', 'encrypt_sk(%s...)' % (esk[0][1][:1] if esk else None),
+                  where=f.where, expected='unhexlify(%s), %s' % (KEYID, ALG), found='%s / %s' % (enc, alg))
+        rep.check(len(esk) == 1 and len(pk) == 1 and esk[0][0] == pk[0] + '.encrypt_sk' and esk[0][1][:1] == [MAT], rid, 'PGPKey.encrypt',
+                  'encrypt_sk(%s...)' % (esk[0][1][:1] if esk else None),
                   'the session key must be encrypted to the key material of self', where=f.where)
-        break
+    if not n_ok:
+        raise AnalysisError('PGPKey.encrypt never returns')
 
 
 RFC_HASH_IDS = {'MD5': 1, 'SHA1': 2, 'RIPEMD160': 3, 'SHA256': 8, 'SHA384': 9, 'SHA512': 10, 'SHA224': 11}
